@@ -1217,6 +1217,17 @@ class FortranFile:
                 word_range = find_word_in_line(line.lower(), find_word_lower)
                 if word_range.start >= 0:
                     line_no += i + 1
+                    # The leading "&" of a free-form continuation line was cut off:
+                    # columns count from the start of the line in the document
+                    if not self.fixed:
+                        cont_match = FRegex.FREE_CONT.match(
+                            self.get_line(line_no, pp_content) or ""
+                        )
+                        if cont_match:
+                            offset = cont_match.end(0)
+                            word_range = Range(
+                                word_range.start + offset, word_range.end + offset
+                            )
                     return line_no, word_range
         return line_no, word_range
 
